@@ -1327,6 +1327,10 @@ def compare(got, want, exact=True, lowprec=False):
         return None
     try:
         bad = np.argwhere(~np.isclose(got.astype(np.float64), want.astype(np.float64), equal_nan=True))
+        if len(bad) == 0:
+            with np.errstate(all="ignore"):
+                md = np.nanmax(np.abs(got.astype(np.float64) - want.astype(np.float64)))
+            return f"values differ only beyond the exact-comparison tolerance (max abs difference {md:.3g})"
         first = tuple(int(i) for i in bad[0]) if len(bad) else ()
         return (f"{len(bad)} of {want.size} elements differ; first at {first}: "
                 f"got {got[first]!r} expected {want[first]!r}")
